@@ -1,4 +1,5 @@
 import Heathcliff.Proofs.C03K
+import Heathcliff.Proofs.C03S
 import Heathcliff.Proofs.C02K
 import Heathcliff.Proofs.C07L
 import Heathcliff.Proofs.GenValid
@@ -155,6 +156,18 @@ theorem ckks_add_refuses_repr : type_of% @HC.ckks_add_refuses_repr := @HC.ckks_a
 
 /-- multiply refuses coefficient-form operands -/
 theorem ckks_multiply_refuses_coeff : type_of% @HC.ckks_multiply_refuses_coeff := @HC.ckks_multiply_refuses_coeff
+
+/-- K1 SQUARE: `ckksSquare` (the model of `ckks_square`: size-2 fast path `c0², c0·c1 + c0·c1, c1²`, `ckks_multiply(x, x.clone())` otherwise;
+    run by the driver for `ct_op square`) IS the product of the ciphertext with itself, for every canonical ciphertext -/
+theorem ckksSquare_eq : type_of% @HC.ckksSquare_eq := @HC.ckksSquare_eq
+
+/-- K1 SQUARE, integer level (any size n in 2..8): the exact phase of the square is the negacyclic square of the exact phase modulo Q;
+    the result is a canonical ciphertext of 2n − 1 polynomials; no noise is added -/
+theorem ckks_square_phase : type_of% @HC.ckks_square_phase := @HC.ckks_square_phase
+
+/-- square refuses a coefficient-form operand, and more than 8 polynomials (result size > 16) -/
+theorem ckks_square_refuses_coeff : type_of% @HC.ckks_square_refuses_coeff := @HC.ckks_square_refuses_coeff
+theorem ckks_square_refuses_size : type_of% @HC.ckksSquare_refuse_size := @HC.ckksSquare_refuse_size
 
 /-- multiply_plain refuses a coefficient-form ciphertext -/
 theorem ckks_multiply_plain_refuses_coeff : type_of% @HC.ckks_multiply_plain_refuses_coeff := @HC.ckks_multiply_plain_refuses_coeff
